@@ -10,8 +10,6 @@ Open Scope R_scope.
 Definition zrot_spec (zrot : R -> R -> R * R) : Prop :=
   forall x y, x * x + y * y <> 0 ->
   zrot x y = (- y / rsqrt (x * x + y * y), - x / rsqrt (x * x + y * y)).
-Lemma zrot_closed_spec : zrot_spec (zrot_closed R_ops).
-Proof. intros x y _. reflexivity. Qed.
 
 Definition plane_normal (A B C : rv) : rv := rcross (rvsub B A) (rvsub C A).
 Definition sqn (v : rv) : R := rdot v v.
@@ -33,6 +31,9 @@ Lemma sq_sum_pos x y : x * x + y * y <> 0 -> 0 < x * x + y * y.
 Proof. intros H. pose proof (Rle_0_sqr x). pose proof (Rle_0_sqr y). unfold Rsqr in *. lra. Qed.
 Lemma sqn_nonneg v : 0 <= sqn v.
 Proof. unfold sqn. vsimp. pose proof (Rle_0_sqr (vx v)). pose proof (Rle_0_sqr (vy v)). pose proof (Rle_0_sqr (vz v)). unfold Rsqr in *. lra. Qed.
+
+Lemma zrot_closed_spec : zrot_spec (zrot_closed R_ops).
+Proof. intros x y H. unfold zrot_closed. rsimp. rewrite Reqb_false; [reflexivity|]. apply sqrt_nz. apply sq_sum_pos. exact H. Qed.
 
 Section Abstract.
 Variable zrot : R -> R -> R * R.
@@ -96,7 +97,9 @@ Proof. unfold cur. rewrite cur_arg. apply sqrt_sqrt. pose proof r_pos. pose proo
 
 (* line end: on the negative y axis (x = 0, y < 0), at distance size from the origin *)
 Lemma out_n_L2 : out_n A n L1 L2 L2 = rvscale (d_of A n L1 L2) (size / cur).
-Proof. unfold out_n, cur, d_of, vec_of, rescale. cbv zeta. vsimp. f_equal; ring. Qed.
+Proof. unfold out_n, cur, d_of, vec_of. cbv zeta.
+  set (cs := zrot _ _). set (sc := size / rsqrt _). set (o := rotp cs (frame A n L1)). set (w := rotp cs (frame A n L2)).
+  clearbody sc o w. unfold rescale. vsimp. f_equal; ring. Qed.
 Lemma out_n_L2_post : 0 < size ->
   vx (out_n A n L1 L2 L2) = 0 /\ vy (out_n A n L1 L2 L2) < 0 /\ rnorm (out_n A n L1 L2 L2) = size.
 Proof. intros Hs. rewrite out_n_L2, d_eq. pose proof cur_pos as Hc. pose proof r_pos as Hr. pose proof cur_sq as Hc2.
@@ -108,7 +111,9 @@ Proof. intros Hs. rewrite out_n_L2, d_eq. pose proof cur_pos as Hc. pose proof r
   apply sqrt_square. lra. Qed.
 (* z of any point: its signed distance to the plane through L1, times the scale *)
 Lemma out_n_z p : vz (out_n A n L1 L2 p) = rdot (rvsub p L1) n * (size / cur).
-Proof. unfold out_n, cur, d_of, vec_of, rescale, rotp, frame. cbv zeta. vsimp. ring. Qed.
+Proof. unfold out_n, cur, d_of, vec_of. cbv zeta.
+  set (cs := zrot _ _). set (sc := size / rsqrt _). clearbody sc cs.
+  unfold rescale, rotp, frame. vsimp. ring. Qed.
 End Unit.
 
 (* ---------- translation and uniform positive scaling ---------- *)
@@ -123,10 +128,10 @@ Lemma dot_scale u a : rdot (rvscale u a) (rvscale u a) = a * a * rdot u u.
 Proof. vsimp. ring. Qed.
 Lemma zrot_scale a x y : 0 < a -> x * x + y * y <> 0 -> zrot (x * a) (y * a) = zrot x y.
 Proof. intros Ha Hxy. pose proof (sq_sum_pos _ _ Hxy) as Hp.
-  assert (Hxy' : x * a * (x * a) + y * a * (y * a) <> 0) by (replace (x * a * (x * a) + y * a * (y * a)) with (a * a * (x * x + y * y)) by ring; nra).
+  assert (Hxy' : x * a * (x * a) + y * a * (y * a) <> 0) by (replace (x * a * (x * a) + y * a * (y * a)) with (a * a * (x * x + y * y)) by ring; apply Rgt_not_eq; apply Rmult_lt_0_compat; [nra|exact Hp]).
   rewrite (Hz _ _ Hxy'), (Hz _ _ Hxy).
   replace (x * a * (x * a) + y * a * (y * a)) with (a * a * (x * x + y * y)) by ring.
-  rewrite sqrt_sq_scal_pos by lra. pose proof (sqrt_nz _ Hp). f_equal; field; lra. Qed.
+  rewrite sqrt_sq_scal_pos by lra. pose proof (sqrt_nz _ Hp) as Hq. f_equal; field; split; (exact Hq || lra). Qed.
 
 Lemma out_n_sim a t A n L1 L2 p : 0 < a ->
   vx (vec_of A n L1 L2) * vx (vec_of A n L1 L2) + vy (vec_of A n L1 L2) * vy (vec_of A n L1 L2) <> 0 ->
@@ -138,5 +143,6 @@ Proof. intros Ha Hv Hc. unfold out_n, d_of, vec_of in *. cbv zeta in *. rewrite 
   set (cs := zrot (vx (rvsub q2 q1)) (vy (rvsub q2 q1))) in *.
   rewrite !rotp_scale, vsub_scale, dot_scale. set (d := rvsub (rotp cs q2) (rotp cs q1)) in *.
   rewrite sqrt_sq_scal_pos by (try apply (sqn_nonneg d); lra).
-  unfold rescale. vsimp. f_equal; field; split; lra. Qed.
+  set (c := rsqrt (rdot d d)) in *. set (o := rotp cs q1). set (w := rotp cs q).
+  clearbody c o w. clear - Ha Hc. unfold rescale. vsimp. f_equal; field; split; lra. Qed.
 End Abstract.
